@@ -1,0 +1,17 @@
+//go:build verif
+
+// Read-only accessors used by the verification harness in /verif.  This file
+// is only compiled with the build tag "verif"; it adds no behaviour.
+
+package vm
+
+import "github.com/skx/evalfilter/v2/environment"
+
+// VerifBytecode returns the main program as the machine will run it.
+func (vm *VM) VerifBytecode() []byte { return vm.bytecode }
+
+// VerifFunctions returns the user-defined functions as the machine will run them.
+func (vm *VM) VerifFunctions() map[string]environment.UserFunction { return vm.functions }
+
+// VerifStackSize returns the number of entries on the machine's value stack.
+func (vm *VM) VerifStackSize() int { return vm.stack.Size() }
